@@ -2,6 +2,7 @@ import JominiModel.Proofs.Date
 import JominiModel.Proofs.DateFast
 import JominiModel.Proofs.DateFmt
 import JominiModel.Proofs.DateArith
+import JominiModel.Proofs.DateSerde
 import JominiModel.Generated.Tables
 /-
 C13 — Date codecs are mutually inverse and date arithmetic is consistent.
@@ -430,5 +431,114 @@ theorem C13_no_panic_parse (s : Bytes) :
    bind_ne_panic (Expanded.parse_ne_panic s) DateHour.fromExpanded_ne_panic,
    bind_ne_panic (Expanded.parse_ne_panic s) UniformDate.fromExpanded_ne_panic,
    RawDate.parse_ne_panic s⟩
+
+/-! ### the glue around the core: serde visitors and the heuristic binary entry points -/
+
+/-- **every accepted string / number goes through the same parse as the core and yields the same
+date**: the `Deserialize` impls (`deserialize_any` + `DateVisitor` / `DateHourVisitor` /
+`UniformDateVisitor`) accept only `visit_str`-family calls, which are the type's `parse`, and
+(`Date`, `DateHour` only) `visit_i32`, which is the type's `from_binary`; every other `visit_*`
+is refused.  Hence everything proved about `parse` / `from_binary` holds for deserialized values. -/
+theorem C13_visitor_core (t : LeafToken) :
+    (∀ x, Date.visit t = .ok x →
+      (∃ s, t = .str s ∧ Date.parse s = .ok x) ∨ (∃ v, t = .i32 v ∧ Date.fromBinary v = .ok x)) ∧
+    (∀ x, DateHour.visit t = .ok x →
+      (∃ s, t = .str s ∧ DateHour.parse s = .ok x) ∨ (∃ v, t = .i32 v ∧ DateHour.fromBinary v = .ok x)) ∧
+    (∀ x, UniformDate.visit t = .ok x → ∃ s, t = .str s ∧ UniformDate.parse s = .ok x) ∧
+    Date.visit t ≠ .panic ∧ DateHour.visit t ≠ .panic ∧ UniformDate.visit t ≠ .panic := by
+  cases t with
+  | i32 v =>
+    refine ⟨fun x h => Or.inr ⟨v, rfl, h⟩, fun x h => Or.inr ⟨v, rfl, h⟩, (fun x h => by cases h),
+      (C13_no_overflow_from_binary v).1, (C13_no_overflow_from_binary v).2.1, (by simp [UniformDate.visit])⟩
+  | str s =>
+    refine ⟨fun x h => Or.inl ⟨s, rfl, h⟩, fun x h => Or.inl ⟨s, rfl, h⟩, fun x h => ⟨s, rfl, h⟩,
+      (C13_no_panic_parse s).1, (C13_no_panic_parse s).2.1, (C13_no_panic_parse s).2.2.1⟩
+  | other =>
+    refine ⟨(fun x h => by cases h), (fun x h => by cases h), (fun x h => by cases h), ?_, ?_, ?_⟩ <;>
+      simp [Date.visit, DateHour.visit, UniformDate.visit]
+
+example : Date.visit (.i32 56379360) = .ok (mkDate 1436 1 1) ∧ UniformDate.visit (.i32 56379360) = .err ∧
+    Date.visit .other = .err := by decide
+
+/-- **an `i32` outside the representable range is rejected, never wrapped**: whatever number
+`visit_i32` (`from_binary`) accepts lies between 1 January −32768 00h (−243 247 680) and
+31 December 32767 23h (330 847 679), and the date it yields encodes back to that very number
+(day part for `Date`) — there is no reduction modulo anything. -/
+theorem C13_visitor_i32_exact (v : Int) :
+    (∀ x, Date.visit (.i32 v) = .ok x →
+      -243247680 ≤ v ∧ v ≤ 330847679 ∧ x.toBinary = .ok (v - v.tmod 24)) ∧
+    (∀ x, DateHour.visit (.i32 v) = .ok x →
+      -243247680 ≤ v ∧ v ≤ 330847679 ∧ x.toBinary = .ok v) := by
+  have hr : ∀ {α : Type} (f : Expanded → Out α) (x : α), (Expanded.fromBinary v).bind f = .ok x →
+      -243247680 ≤ v ∧ v ≤ 330847679 := by
+    intro α f x h
+    cases he : Expanded.fromBinary v with
+    | ok e => exact Expanded.fromBinary_range v e he
+    | err => rw [he] at h; cases h
+    | panic => rw [he] at h; cases h
+  constructor
+  · intro x h
+    have h' : Date.fromBinary v = .ok x := h
+    have r := hr (fun e => Date.fromExpanded { e with hour := 0 }) x (by
+      unfold Date.fromBinary at h'
+      cases he : Expanded.fromBinary v <;> rw [he] at h' <;> simp at h' ⊢ <;> exact h')
+    exact ⟨r.1, r.2, C13_from_binary_reencode_date v x h'⟩
+  · intro x h
+    have h' : DateHour.fromBinary v = .ok x := h
+    have r := hr _ x h'
+    exact ⟨r.1, r.2, C13_from_binary_reencode_datehour v x h'⟩
+
+example : Date.visit (.i32 2147483647) = .err ∧ Date.visit (.i32 (-2147483648)) = .err ∧
+    Date.visit (.i32 330847679) = .ok (mkDate 32767 12 31) ∧ Date.visit (.i32 330847680) = .err := by decide
+
+/-- **the heuristic entry points are restrictions of the plain ones**: `Date::from_binary_heuristic`
+is `Date::from_binary` on numbers without an hour part and years above −100;
+`DateHour::from_binary_heuristic` is `DateHour::from_binary` on years ≥ 1800 plus ±1.1.1.1. -/
+theorem C13_heuristic (s : Int) :
+    (∀ x, Date.fromBinaryHeuristic s = .ok x ↔
+      Date.fromBinary s = .ok x ∧ x.year > -100 ∧ s.tmod 24 = 0) ∧
+    (∀ x, DateHour.fromBinaryHeuristic s = .ok x ↔
+      DateHour.fromBinary s = .ok x ∧
+        (1800 ≤ x.year ∨ ((x.year = 1 ∨ x.year = -1) ∧ x.month = 1 ∧ x.day = 1 ∧ x.hour = 1))) :=
+  ⟨Date.fromBinaryHeuristic_iff s, DateHour.fromBinaryHeuristic_iff s⟩
+
+example : Date.fromBinaryHeuristic 56379360 = .ok (mkDate 1436 1 1) ∧ Date.fromBinaryHeuristic 60759371 = .err ∧
+    DateHour.fromBinaryHeuristic 43791240 = .ok (mkDateHour (-1) 1 1 1) ∧
+    DateHour.fromBinaryHeuristic 56379360 = .err := by decide
+
+/-- the `Serialize` impls write the ISO-8601 text of `C13_iso`. -/
+theorem C13_serialize (y : Int) (m d h : Nat) (hv : ValidMd m d) (hh : ValidHour h) :
+    (mkDate y m d).serialize = .ok (isoText y m d 0) ∧
+    (mkDateHour y m d h).serialize = .ok (isoText y m d h) := by
+  have hl := validMd_lt hv
+  have hh' : h < 32 := by unfold ValidHour at hh; omega
+  exact ⟨format_iso y m d 0 hl.1 hl.2 (by omega), format_iso y m d h hl.1 hl.2 hh'⟩
+
+/-! ### the two recorded findings, as theorems about the model (known_findings.txt) -/
+
+/-- **recorded finding `bare-number-accepted`** — contradicts the clause "parsing accepts a numeric
+Y.M.D[.H] string only with exactly those components" for `DateHour` and `UniformDate`:
+the text `60759371` has no components at all (the integer prefix parser consumes everything, the
+bare-number branch of `C13_rejects_grammar`), yet `DateHour::parse` accepts it — with an hour one
+less than `DateHour::from_binary` gives for the same number — while `RawDate::parse`, whose logic
+the docs say it follows, refuses it; `UniformDate::parse("-")` is 1 January −5000. -/
+theorem C13_known_bare_number_accepted :
+    Scalar.toI64T [54, 48, 55, 53, 57, 51, 55, 49] = .ok (60759371, []) ∧
+    DateHour.parse [54, 48, 55, 53, 57, 51, 55, 49] = .ok (mkDateHour 1936 1 1 11) ∧
+    DateHour.fromBinary 60759371 = .ok (mkDateHour 1936 1 1 12) ∧
+    RawDate.parse [54, 48, 55, 53, 57, 51, 55, 49] = .err ∧
+    UniformDate.parse [45] = .ok (mkUniform (-5000) 1 1) := by
+  refine ⟨rfl, ?_⟩
+  decide
+
+/-- **recorded finding `empty-year-accepted`** — contradicts the same clause ("numeric Y"): in
+`-.1.1` the year has a sign and no digit (`to_i64_t` reads a lone sign as 0 and consumes one
+byte), yet `Date::parse` returns 1 January of year 0; likewise `DateHour::parse("+.1.1.1")`. -/
+theorem C13_known_empty_year_accepted :
+    Scalar.toI64T [45, 46, 49, 46, 49] = .ok (0, [46, 49, 46, 49]) ∧
+    Date.parse [45, 46, 49, 46, 49] = .ok (mkDate 0 1 1) ∧
+    DateHour.parse [43, 46, 49, 46, 49, 46, 49] = .ok (mkDateHour 0 1 1 1) := by
+  refine ⟨rfl, ?_⟩
+  decide
 
 end Jomini.Props.C13
